@@ -19,13 +19,16 @@
    * "whenever a swap executes, its result equals the estimate": C03_estimate_eq_execute_in/out; the estimate cannot touch state (it
      is a function of the state returning a number; for the implementation the driver compares store digests).  The converse is
      refuted (C03_estimate_converse_refuted), as DESIGN.md says it must be.
+   * "swapping there and straight back never returns more than was put in": C03_there_and_back_le, for every state satisfying the
+     C07 invariant (hence every reachable one), both directions, any number of buckets crossed on the way there and back, any
+     amounts (uses the exact-rational potentials of C01: C01.Potential.bucket_potential, C01.SwapSolvent.chain_potential).
    * NOT proved here (checked on the implementation by the oracle on every run): the lower half of the "bounded rounding amount"
-     sandwich (ideal_out(A - k - 1 - A/10^18) - 1 <= out) and there-and-back; see C03_full and coq/theories/C03/STATUS.md. *)
+     sandwich as a function of the input; see C03_full and coq/theories/C03/STATUS.md. *)
 From Coq Require Import ZArith QArith List Bool.
 Import ListNotations.
 From Osmo Require Import Base.DecModel Gen.CL_consts CL.TickMath CL.CLMath CL.CLPool CL.CLSwap CL.CLStep CL.Ideal.
 From Osmo Require Import C07.Base C07.LP C07.SwapDir C07.Swap C07.Proofs.
-From Osmo Require Import C03.Rounding C03.Steps C03.ErrorBound C03.Path C03.Whole C03.Estimate.
+From Osmo Require Import C03.Rounding C03.Steps C03.ErrorBound C03.Path C03.Whole C03.Estimate C03.ThereBack.
 Open Scope Z_scope.
 
 Definition reach (sp spf sc t0 : Z) (users : list (Z * Z)) (ops : list op) : state :=
@@ -157,6 +160,24 @@ Definition C03_error_bounded_full : Prop :=
 Definition C03_there_and_back_full : Prop :=
   forall s sender zfo amt s1 out s2 back, Inv s ->
     swap_exact_in s sender zfo amt 1 = Some (s1, out) -> swap_exact_in s1 sender (negb zfo) out 1 = Some (s2, back) -> back <= amt.
+
+(* there and back: proved, in a more general form (any senders, any minimum-out limits) *)
+Theorem C03_there_and_back_le : forall s sender zfo amt m1 s1 out sender2 m2 s2 back, Inv s ->
+  swap_exact_in s sender zfo amt m1 = Some (s1, out) ->
+  swap_exact_in s1 sender2 (negb zfo) out m2 = Some (s2, back) ->
+  back <= amt.
+Proof. exact there_and_back_le. Qed.
+Print Assumptions C03_there_and_back_le.
+Theorem C03_there_and_back : C03_there_and_back_full.
+Proof. intros s sender zfo amt s1 out s2 back I H1 H2. eapply there_and_back_le; eassumption. Qed.
+(* ... in particular after every history *)
+Theorem C03_there_and_back_reachable : forall sp spf sc t0 users ops sender zfo amt m1 s1 out sender2 m2 s2 back,
+  In sp cl_AuthorizedTickSpacing -> In spf cl_AuthorizedSpreadFactors ->
+  swap_exact_in (reach sp spf sc t0 users ops) sender zfo amt m1 = Some (s1, out) ->
+  swap_exact_in s1 sender2 (negb zfo) out m2 = Some (s2, back) -> back <= amt.
+Proof. intros sp spf sc t0 users ops sender zfo amt m1 s1 out sender2 m2 s2 back H1 H2. apply there_and_back_le. apply reach_inv; assumption. Qed.
+Print Assumptions C03_there_and_back_reachable.
+
 Definition C03_full : Prop :=
   (forall sp spf sc t0 users ops zfo accum amt r,
      In sp cl_AuthorizedTickSpacing -> In spf cl_AuthorizedSpreadFactors -> 0 <= amt ->
@@ -168,7 +189,7 @@ Definition C03_full : Prop :=
   (forall s sender zfo amt max_in s' tin, swap_exact_out s sender zfo amt max_in = Some (s', tin) -> calc_in_given_out s zfo amt = Some tin) /\
   C03_error_bounded_full /\ C03_there_and_back_full.
 
-(* proved: everything but the last two clauses *)
+(* proved: everything but the error-bound clause *)
 Theorem C03_partial :
   (forall sp spf sc t0 users ops zfo accum amt r,
      In sp cl_AuthorizedTickSpacing -> In spf cl_AuthorizedSpreadFactors -> 0 <= amt ->
@@ -177,9 +198,10 @@ Theorem C03_partial :
        (qz (sr_out r) <= qsum (ideal_out_of zfo) tr)%Q /\
        (qsum (ideal_in_of zfo) tr - in_slack zfo * qz (Z.of_nat (length tr)) <= qz (sr_in r) * (1 - spread_q (reach sp spf sc t0 users ops)))%Q) /\
   (forall s sender zfo amt min_out s' out, swap_exact_in s sender zfo amt min_out = Some (s', out) -> calc_out_given_in s zfo amt = Some out) /\
-  (forall s sender zfo amt max_in s' tin, swap_exact_out s sender zfo amt max_in = Some (s', tin) -> calc_in_given_out s zfo amt = Some tin).
+  (forall s sender zfo amt max_in s' tin, swap_exact_out s sender zfo amt max_in = Some (s', tin) -> calc_in_given_out s zfo amt = Some tin) /\
+  C03_there_and_back_full.
 Proof.
-  split; [|split; [exact estimate_eq_execute_in|exact estimate_eq_execute_out]].
+  split; [|split; [exact estimate_eq_execute_in|split; [exact estimate_eq_execute_out|exact C03_there_and_back]]].
   intros sp spf sc t0 users ops zfo accum amt r H1 H2 Ha H.
   destruct (exact_in_vs_ideal _ _ _ _ _ (reach_inv _ _ _ _ _ _ H1 H2) Ha H) as [tr [A [B [C [D _]]]]].
   exists tr. repeat split; assumption.
